@@ -41,11 +41,12 @@ Definition evaluator_table : list entry := [
   ("Expand/expand", (["SymbolicDim"; "_same_shape"; "dims"; "get_shape_value"; "shape"],
      Modelled ["C09_expand_identity_sound"; "C09_expand_identity_const_sound"]));
   ("ConcatFromSequence/concat_from_sequence", (["get_sym_value"],
-     Modelled ["C09_stack_shape_sound"; "C09_chunks_concat"; "C09_concat_drop_fixed_accepts_exactly"]));
+     Modelled ["C09_stack_shape_sound"; "C09_chunks_concat"; "C09_concat_drop_fixed_accepts_exactly"; "C09_split_concat_roundtrip"]));
   ("SplitToSequence/split_to_sequence", (["is_static"; "shape"],
-     Modelled ["C09_split_scalar_sound"; "C09_static_shape_valuation_independent"; "C09_chunks_length"; "C09_chunks_concat"; "C09_split_vector_keepdims1_sound"; "C09_split_vector_keepdims0_refuted"]));
+     Modelled ["C09_split_scalar_sound"; "C09_static_shape_valuation_independent"; "C09_chunks_length"; "C09_chunks_concat"; "C09_split_vector_keepdims1_sound"; "C09_split_vector_keepdims0_refuted";
+               "C09_split_scalar_emitted_accepts_iff"; "C09_split_scalar_emitted_empty_axis_refuted"; "C09_split_scalar_fixed_exact"; "C09_split_concat_roundtrip"]));
   ("SequenceAt/sequence_at", (["get_sym_value"; "set_sym_value"],
-     Modelled ["C09_seq_at_sound"]))
+     Modelled ["C09_seq_at_sound"; "C09_seq_at_accepts_iff"]))
 ].
 
 Definition rule_table : list entry := [
@@ -54,9 +55,11 @@ Definition rule_table : list entry := [
   ("_basic_rules.py:CastCast", ([], NoShapeUse));
   ("_basic_rules.py:ExpandIdentity", (["dims"; "shape"], Modelled ["C09_expand_identity_const_sound"]));
   ("_basic_rules.py:ReshapeReshape", (["shape"],
-     Modelled ["C09_reshape_reshape_annotated_sound"; "C09_reshape_reshape_subst_known_sound"; "C09_reshape_reshape_decline_needed"; "C09_reshape_reshape_decline_two_zeros"]));
+     Modelled ["C09_reshape_reshape_annotated_sound"; "C09_reshape_reshape_subst_known_sound"; "C09_reshape_reshape_decline_needed"; "C09_reshape_reshape_decline_two_zeros";
+               "C09_reshape_reshape_accepts_iff"; "C09_reshape_reshape_no_zero_copy_exact"; "C09_reshape_reshape_zero_copy_exact"; "C09_reshape_reshape_zero_copy_widens_iff";
+               "C09_reshape_reshape_accepts_full_refuted"]));
   ("_basic_rules.py:SlicesSplit", (["shape"],
-     Modelled ["C09_slices_split_sound"]));
+     Modelled ["C09_slices_split_sound"; "C09_slices_split_accepts_iff"; "C09_slices_split_last_dim_necessary"; "C09_slices_split_symbolic_last_dim_no_constants"]));
   ("_basic_rules.py:TransposeIdentity", ([], NoShapeUse));
   ("_basic_rules.py:TransposeTranspose", ([], NoShapeUse));
   ("_basic_rules.py:UnsqueezeUnsqueeze", ([], NoShapeUse));
@@ -69,7 +72,7 @@ Definition rule_table : list entry := [
      Modelled ["C09_expand_binop_shape_sound"; "C09_expand_binop_values"]));
   ("_remove_expand_before_binary_op.py:_ExpandSecondInput", (["SymbolicDim"; "rank"; "shape"],
      Modelled ["C09_expand_binop_shape_sound"; "C09_expand_binop_values"]));
-  ("_redundant_scatter_nd.py:ScatterAllDynamic", (["same_dim"; "shape"], Modelled ["C09_scatter_dyn_sound"; "C09_scatter_dyn_values"]));
+  ("_redundant_scatter_nd.py:ScatterAllDynamic", (["same_dim"; "shape"], Modelled ["C09_scatter_dyn_sound"; "C09_scatter_dyn_values"; "C09_scatter_dyn_attrs_sound"; "C09_scatter_dyn_end_ignored_refuted"]));
   ("_redundant_scatter_nd.py:ScatterAllStatic", (["same_shape"; "shape"], Modelled ["C09_scatter_static_sound"; "C09_scatter_full_range"]));
   ("_broadcast_to_matmul.py:two_reshapes_matmul_reshape_rule", (["SymbolicDim"; "shape"],
      Modelled ["C09_b2m_check_sound"; "C09_b2m_guard_static"; "C09_static_shape_valuation_independent"]));
@@ -79,7 +82,7 @@ Definition rule_table : list entry := [
   ("_ir_utils.py:broadcast_keeps_rank", (["rank"; "shape"],
      Modelled ["C09_rank_valuation_independent"; "C09_broadcast_keeps_rank_sound"; "C09_broadcast_keeps_rank_no_reference"]));
   ("_ir_utils.py:get_dim", (["SymbolicDim"; "rank"; "shape"],
-     Differential "returns the annotated dim at a (Python-normalised) position and takes no decision; no rule of the anchored files calls it (callers are the fusion rules, whose use of the returned dim is modelled under C19); nothing to state for a valuation beyond C09_rank_valuation_independent"));
+     Modelled ["C09_get_dim_sound"; "C09_get_dim_none_iff"]));
   ("_ir_utils.py:same_shape", (["has_unknown_dim"], Modelled ["C09_iu_same_shape_sound"]));
   ("_ir_utils.py:same_dim", (["SymbolicDim"], Modelled ["C09_same_dim_sound"]))
 ].
